@@ -238,7 +238,7 @@ fire('c03-acc-renewal', 'C03', M, 'Method.RenewSearchData', 'self.searchData.Ins
 twin('c03-acc-commuted', 'C03', M, 'Method.CalculateIterationPoint',
      'self.min_delta = min(old.delta, self.min_delta)', 'self.min_delta = min(self.min_delta, old.delta)')
 fire('c03-new-while', 'C03', M, 'Method.RecalcAllCharacteristics', '        self.searchData.RefillQueue()\n',
-     '        while self.searchData.GetCount() < 0:\n            pass\n        self.searchData.RefillQueue()\n', 'R03.7')
+     '        while self.recalc:\n            pass\n        self.searchData.RefillQueue()\n', 'R03.7')
 
 # ----------------------------------------------------------------------------- C04
 fire('c04-no-update', 'C04', P, 'Process.DoGlobalIteration', '                self.method.UpdateOptimum(newpoint)\n', '',
@@ -918,3 +918,38 @@ gtwin('g-insert-no-flag', SD, 'SearchData.InsertDataItem',
       '        hinted = rightDataItem is not None\n        flag = hinted\n        if not hinted:\n            rightDataItem = self.FindDataItemByOneDimensionalPoint(newDataItem.GetX())\n')
 gtwin('g-new-problem', PR + 'xsquared.py', None, 'class XSquared(Problem):',
       'class XCubedAbs(Problem):\n    def __init__(self, dimension: int):\n        super(XCubedAbs, self).__init__()\n        self.dimension = dimension\n        self.numberOfFloatVariables = dimension\n        self.numberOfObjectives = 1\n        self.numberOfConstraints = 0\n        self.floatVariableNames = np.ndarray(shape=(self.dimension), dtype=str)\n        for i in range(self.dimension):\n            self.floatVariableNames[i] = i\n        self.lowerBoundOfFloatVariables = np.ndarray(shape=(self.dimension), dtype=np.double)\n        self.lowerBoundOfFloatVariables.fill(-1)\n        self.upperBoundOfFloatVariables = np.ndarray(shape=(self.dimension), dtype=np.double)\n        self.upperBoundOfFloatVariables.fill(2)\n        self.knownOptimum = np.ndarray(shape=(1), dtype=Trial)\n        pointfv = np.ndarray(shape=(self.dimension), dtype=np.double)\n        pointfv.fill(0)\n        KOpoint = Point(pointfv, [])\n        KOfunV = np.ndarray(shape=(1), dtype=FunctionValue)\n        KOfunV[0] = FunctionValue()\n        KOfunV[0].value = 0\n        self.knownOptimum[0] = Trial(KOpoint, KOfunV)\n\n    def Calculate(self, point: Point, functionValue: FunctionValue) -> FunctionValue:\n        s = 0.0\n        for i in range(self.dimension):\n            s += abs(point.floatVariables[i]) ** 3\n        functionValue.value = s\n        return functionValue\n\n\nclass XSquared(Problem):')
+
+twin('c03-while-traversal', 'C03', SD, 'SearchData.RefillQueue',
+     '        for itr in self:\n            self._RGlobalQueue.Insert(itr.globalR, itr)',
+     '        itr = self.GetLastItem()\n        while itr is not None:\n            itr = itr.GetLeft()\n        for itr in self:\n            self._RGlobalQueue.Insert(itr.globalR, itr)',
+     why='a neighbour-link traversal terminates')
+twin('c19-lookup-backward-correct', 'C19', SD, 'SearchData.FindDataItemByOneDimensionalPoint',
+     '        for item in self:\n            if item.GetX() > x:\n                return item\n        return None',
+     '        last = self.GetLastItem()\n        for item in self:\n            if item.GetX() > x:\n                return item\n        return None')
+fire('c13-shared-listener-default', 'C13', SV, 'Solver.__init__', 'parameters: SolverParameters = SolverParameters()\n                 ):',
+     'parameters: SolverParameters = SolverParameters(),\n                 listeners: List[Listener] = []\n                 ):', 'R13.7',
+     also=[(SV, 'Solver.__init__', 'self.__listeners: List[Listener] = []', 'self.__listeners: List[Listener] = listeners')])
+twin('c13-initial-listeners-copied', 'C13', SV, 'Solver.__init__', 'parameters: SolverParameters = SolverParameters()\n                 ):',
+     'parameters: SolverParameters = SolverParameters(),\n                 listeners: List[Listener] = ()\n                 ):',
+     also=[(SV, 'Solver.__init__', 'self.__listeners: List[Listener] = []', 'self.__listeners: List[Listener] = list(listeners)')])
+fire('c11-recalc-per-call', 'C11', P, 'Process.DoGlobalIteration', '        for listener in self.__listeners:\n            listener.OnEndIteration',
+     '        self.method.RecalcAllCharacteristics()\n        for listener in self.__listeners:\n            listener.OnEndIteration', 'R11.2',
+     also=[(M, 'Method.CalculateIterationPoint', '        if self.recalc is True:\n            self.RecalcAllCharacteristics()\n', '')])
+fire('c18-gkls-one-sided', 'C18', GK, 'GKLSFunction.GKLS_arg_generate',
+     "             self.GKLS_domain_right[self.GKLS_dim - 1] - GKLSFunction.GKLS_PRECISION) or\n                (self.GKLS_minima.local_min[1][self.GKLS_dim - 1] <\n                 self.GKLS_domain_left[self.GKLS_dim - 1] + GKLSFunction.GKLS_PRECISION)):",
+     "             self.GKLS_domain_right[self.GKLS_dim - 1] - GKLSFunction.GKLS_PRECISION)):", 'R18.4')
+fire('c06-delta-before-eval', 'C06', M, 'Method.CalculateIterationPoint', '        return new, old',
+     '        old.delta = Method.CalculateDelta(newx, old.GetX(), self.dimension)\n        new.delta = Method.CalculateDelta(old.GetLeft().GetX(), newx, self.dimension)\n        return new, old',
+     'R06.9', also=[(M, 'Method.RenewSearchData', '        oldpoint.delta = Method.CalculateDelta(newpoint.GetX(), oldpoint.GetX(), self.dimension)\n        newpoint.delta = Method.CalculateDelta(oldpoint.GetLeft().GetX(), newpoint.GetX(), self.dimension)\n', '')])
+twin('c02-delta-in-selection', 'C02', M, 'Method.CalculateIterationPoint', '        return new, old',
+     '        old.delta = Method.CalculateDelta(newx, old.GetX(), self.dimension)\n        new.delta = Method.CalculateDelta(old.GetLeft().GetX(), newx, self.dimension)\n        return new, old',
+     why='placement rule unchanged in fault-free runs: the lengths are refreshed earlier in the same iteration',
+     also=[(M, 'Method.RenewSearchData', '        oldpoint.delta = Method.CalculateDelta(newpoint.GetX(), oldpoint.GetX(), self.dimension)\n        newpoint.delta = Method.CalculateDelta(oldpoint.GetLeft().GetX(), newpoint.GetX(), self.dimension)\n', '')])
+twin('c05-affine-vectorised', 'C05', EV, 'Evolvent.__TransformP2D',
+     '        for i in range(0, self.numberOfFloatVariables):\n            self.yValues[i] = self.yValues[i] * (\n                        self.upperBoundOfFloatVariables[i] - self.lowerBoundOfFloatVariables[i]) + \\\n                        (self.upperBoundOfFloatVariables[i] + self.lowerBoundOfFloatVariables[i]) / 2',
+     '        self.yValues = self.yValues * (self.upperBoundOfFloatVariables - self.lowerBoundOfFloatVariables) + \\\n            (self.upperBoundOfFloatVariables + self.lowerBoundOfFloatVariables) / 2')
+fire('c05-affine-cached', 'C05', EV, 'Evolvent.__TransformP2D',
+     '        for i in range(0, self.numberOfFloatVariables):\n            self.yValues[i] = self.yValues[i] * (\n                        self.upperBoundOfFloatVariables[i] - self.lowerBoundOfFloatVariables[i]) + \\\n                        (self.upperBoundOfFloatVariables[i] + self.lowerBoundOfFloatVariables[i]) / 2',
+     '        self.yValues = self.yValues * self.boxSize + self.boxCenter', 'R05.3',
+     also=[(EV, 'Evolvent.__init__', '        self.evolventDensity = evolventDensity\n',
+            '        self.evolventDensity = evolventDensity\n        self.boxSize = self.upperBoundOfFloatVariables - self.lowerBoundOfFloatVariables\n        self.boxCenter = (self.upperBoundOfFloatVariables + self.lowerBoundOfFloatVariables) / 2\n')])
